@@ -5,7 +5,9 @@
         8=<begin> SOH 9=<n> SOH <body: exactly n bytes> 1 0 = d d d SOH
    where <n> is a non-empty string of decimal digits (leading zeros allowed, FIX "Length"),
    n >= 1, and n is not "oversized": n <= [limit], the largest BodyLength the reader admits
-   (a parameter of the spec; for fix8 _max_msg_len - _bg_sz - 7).  The checksum VALUE is not
+   (a parameter of the spec; for fix8 _max_msg_len - _bg_sz - 7), and written with at most [maxw]
+   characters, the longest preamble field value the reader supports (for fix8
+   FIX8_MAX_FLD_LENGTH - 1 = 2047; a longer BodyLength field counts as oversized).  The checksum VALUE is not
    part of framing (it is checked later, by the decoder: property C07/C04).
 
    The observables: the inbound byte stream, whether the peer closed it at the end, the byte
@@ -93,12 +95,14 @@ Inductive frame_res :=
 | FBad                            (* corrupted preamble: wrong BeginString / first field, non-numeric, zero or oversized BodyLength *)
 | FUnspec.                        (* well-formed preamble, but no 10=ddd SOH where the trailer must be: outside the property *)
 
-Definition spec_frame (begin : list byte) (limit : N) (s : list byte) : frame_res :=
+Definition spec_frame (begin : list byte) (limit : N) (maxw : nat) (s : list byte) : frame_res :=
   let hdr := header begin in
   match strip hdr s with
   | None => if is_prefix s hdr then FIncomplete else FBad
   | Some r =>
     let ds := take_digits r in
+    if maxw <? length ds then FBad                       (* BodyLength field too long: oversized *)
+    else
     match drop_digits r with
     | [] => FIncomplete                                  (* BodyLength digits not terminated yet *)
     | c :: more =>
@@ -122,15 +126,15 @@ Definition spec_frame (begin : list byte) (limit : N) (s : list byte) : frame_re
 Inductive tail_class := TClean | TIncomplete | TBad | TUnspec.
 
 (* the maximal sequence of valid frames the stream starts with, and what follows it *)
-Fixpoint spec_parse (fuel : nat) (begin : list byte) (limit : N) (s : list byte) : list (list byte) * tail_class :=
+Fixpoint spec_parse (fuel : nat) (begin : list byte) (limit : N) (maxw : nat) (s : list byte) : list (list byte) * tail_class :=
   match s with
   | [] => ([], TClean)
   | _ =>
     match fuel with
     | O => ([], TUnspec)
     | S f =>
-      match spec_frame begin limit s with
-      | FFrame m rest => let (fs, t) := spec_parse f begin limit rest in (m :: fs, t)
+      match spec_frame begin limit maxw s with
+      | FFrame m rest => let (fs, t) := spec_parse f begin limit maxw rest in (m :: fs, t)
       | FIncomplete => ([], TIncomplete)
       | FBad => ([], TBad)
       | FUnspec => ([], TUnspec)
@@ -157,9 +161,9 @@ Inductive rd_end :=
      rest of the preamble (the oracle cannot know how many bytes a reader needs to decide);
    - after the valid messages comes something with a well-formed preamble but no trailer in
      place: the property only requires the valid messages before it to be handed on first. *)
-Definition c15_ok (begin : list byte) (limit : N) (stream : list byte) (closed : bool)
+Definition c15_ok (begin : list byte) (limit : N) (maxw : nat) (stream : list byte) (closed : bool)
                   (delivered : list (list byte)) (e : rd_end) : bool :=
-  let (frames, t) := spec_parse (S (length stream)) begin limit stream in
+  let (frames, t) := spec_parse (S (length stream)) begin limit maxw stream in
   let eos_ok := match e with RWait => negb closed | RPeerReset => closed | _ => false end in
   let err := match e with RError => true | _ => false end in
   match e with
@@ -173,8 +177,8 @@ Definition c15_ok (begin : list byte) (limit : N) (stream : list byte) (closed :
   end.
 
 (* a single valid frame, as a boolean predicate *)
-Definition valid_frame (begin : list byte) (limit : N) (m : list byte) : bool :=
-  match spec_frame begin limit m with
+Definition valid_frame (begin : list byte) (limit : N) (maxw : nat) (m : list byte) : bool :=
+  match spec_frame begin limit maxw m with
   | FFrame _ [] => true
   | _ => false
   end.
